@@ -470,9 +470,36 @@ func (f *lambdaCallable) validateArgs(argv []reflect.Value) ([]reflect.Value, er
 		return argv, nil
 	}
 
+	contextable := len(f.params) > 0 &&
+		f.params[0].Option == jparse.ParamContextable
+
+	// If there are fewer arguments than parameters and the
+	// first parameter is contextable, the evaluation context
+	// is used as the first argument.
+	useContext := contextable && len(argv) < len(f.params)
+
+	args, err := f.fitArgs(argv, useContext)
+	if err != nil && contextable {
+		// The arguments can still fit the signature the
+		// other way round, e.g. when trailing parameters are
+		// optional (all arguments were given) or variadic
+		// (the first argument was left out).
+		if args, err := f.fitArgs(argv, !useContext); err == nil {
+			return args, nil
+		}
+	}
+
+	return args, err
+}
+
+func (f *lambdaCallable) fitArgs(argv []reflect.Value, useContext bool) ([]reflect.Value, error) {
+
 	var err error
 
-	if argv, err = f.validateArgCount(argv); err != nil {
+	// Work on a copy. Validation modifies the arguments.
+	argv = append([]reflect.Value(nil), argv...)
+
+	if argv, err = f.validateArgCount(argv, useContext); err != nil {
 		return nil, err
 	}
 
@@ -483,7 +510,7 @@ func (f *lambdaCallable) validateArgs(argv []reflect.Value) ([]reflect.Value, er
 	return f.wrapVariadicArgs(argv), nil
 }
 
-func (f *lambdaCallable) validateArgCount(argv []reflect.Value) ([]reflect.Value, error) {
+func (f *lambdaCallable) validateArgCount(argv []reflect.Value, useContext bool) ([]reflect.Value, error) {
 
 	// argc is the number of arguments originally passed to
 	// the function.
@@ -493,10 +520,9 @@ func (f *lambdaCallable) validateArgCount(argv []reflect.Value) ([]reflect.Value
 	// the function's type signature.
 	paramCount := len(f.params)
 
-	// If there are fewer arguments than parameters and the
-	// first parameter is contextable, insert the evaluation
-	// context into the argument list.
-	if argc < paramCount && f.params[0].Option == jparse.ParamContextable {
+	// Insert the evaluation context into the argument list
+	// if the caller asked for it.
+	if useContext {
 		argv = append([]reflect.Value{f.context}, argv...)
 	}
 
